@@ -97,7 +97,7 @@ func (v *Verifier) evalArgs(s *State, call *ast.CallExpr, sig *types.Signature) 
 				arr = Store(arr, IntLit(int64(i)), v.evalTo(s, a, st.Elem()))
 			}
 			base := v.allocRef(s)
-			name := v.sliceHeapName(es)
+			name := v.sliceHeapNameT(st.Elem())
 			h := v.getHeap(s, name, v.sliceHeapSort(es))
 			s.heaps[name] = Store(h, base, arr)
 			n := IntLit(int64(len(extra)))
@@ -618,7 +618,7 @@ func (v *Verifier) evalBuiltin(s *State, name string, call *ast.CallExpr) []*Ter
 			s.assume(g)
 			base := v.allocRef(s)
 			es := v.sortOf(u.Elem())
-			hn := v.sliceHeapName(es)
+			hn := v.sliceHeapNameT(u.Elem())
 			h := v.getHeap(s, hn, v.sliceHeapSort(es))
 			s.heaps[hn] = Store(h, base, ConstArray(SArr(SInt, es), v.zeroOf(u.Elem())))
 			return []*Term{MkSlice(base, IntLit(0), n, c)}
@@ -794,7 +794,12 @@ func (v *Verifier) appendModel(s *State, sl, n *Term, srcAt func(i *Term) *Term,
 			fits = TFalse
 		}
 	}
-	fits = v.name(s, "fits", fits)
+	if !fits.IsLit {
+		c := v.fresh("fits", SBool)
+		s.assume(Eq(c, fits))
+		fits = c
+		s.splits = append(s.splits, c)
+	}
 	s.assume(Le(newLen, IntLitB(maxLen)))
 	// in-place array
 	oldArr := v.hsel(s, h, SBase(sl))
